@@ -366,7 +366,9 @@ impl VoiceSpec {
             let wset = if si == 2 { WINDOW_SETS[0] } else { *m.pick(&WINDOW_SETS[..]) };
             let windows: Vec<Vec<f64>> = wset.iter().map(|w| w.to_vec()).collect();
             let nwin = windows.len();
-            let use_gv = si < 2 && m.chance(0.6);
+            // a GV model on the low-pass stream too, now and then (seeded change C11g: the low-pass stream read the log-F0
+            // stream's threshold and GV weight, which only shows when the low-pass stream uses one of them)
+            let use_gv = if si < 2 { m.chance(0.6) } else { m.chance(0.3) };
             let states: Vec<usize> = (2..2 + nstate).collect();
             let model = match si {
                 0 => mk_model(rng, "mcp", states, &mut |rng: &mut Rng| spectrum_pdf(rng, veclen, nwin, stage, log_gain)),
